@@ -82,7 +82,7 @@ def _private_constant(repo, mod, lit, users):
                 n_loads += 1
                 if g not in users:
                     return False
-    return n_loads > 0
+    return True         # read only by the users - or by nobody (e.g. a hoisted compiled pattern whose uses are seen in place)
 
 
 def run(ctx):
